@@ -23,6 +23,15 @@ inside Coq (vm_compute):
       determined).
 The Python oracle (independent dense SVD / eigh on an independently computed projection residual,
 tie-aware) is only used to search for failing inputs.
+
+Family "histories" (round 3; harness/curhist.py, Model/CURHist.v, Model/CURHistSched.v): ONE
+estimator object taken through cold fit -> set_params(recompute_every / k / mixing / tolerance /
+n_to_select) -> warm start -> ... -> optionally a cold refit on other data, on inputs of any absolute
+scale (X * 2^-e, entries down to 1e-12) and with non-default tolerances (incl. tolerances of the
+order of the column norms: the warning branch of X_orthogonalizer).  The same three comparisons,
+with (a) the warm-start re-orthogonalisation loop modelled WITH a firing guard, (b) X_current_ /
+y_current_ compared after EVERY fit of the history, (c) every comparison relative to the scale of
+the data.  Theorems: C07_history_argmax, C07_warm_catches_up, C07_y_feature_events.
 """
 import collections
 
@@ -30,6 +39,7 @@ import numpy as np
 
 from harness import common as C
 from harness import curfam as F
+from harness import curhist as H
 
 ANCHORS = {
     "src/skmatter/_selection.py": [
@@ -94,8 +104,179 @@ def evaluate(ctx, cases, ress, per_bytes=260000, per_cases=60):
     return reports, broken
 
 
+HFLAGS = ["X_current_ = model residual after every fit", "model residual orthogonal to the selected items",
+          "X_current_ orthogonal to the selected items", "y_current_ = model y residual after every fit",
+          "pinv / lstsq hints satisfy their hypotheses",
+          "importance vector at every refresh = model (eigen-hints valid, none missing)"]
+HCOUNTS = ["refresh_agree", "refresh_gated_gap", "refresh_gated_rcond", "refresh_hint_invalid",
+           "refresh_pi_differs", "warning_branch_pivots", "stale_items_reorthogonalised",
+           "stale_items_skipped_by_guard", "borderline_branch_decisions", "refresh_records_lost"]
+HFLOATS = ["max|X_cur - X_current_|/max|X|", "orth defect (model)/max|X|^2", "orth defect (X_current_)/max|X|^2",
+           "max|y_cur - y_current_|/max|y|", "worst y-hint residual/scale", "worst eigen-hint residual/scale",
+           "max|pi - pi_impl|"]
+
+
+def evaluate_hist(ctx, cases, ress, per_bytes=260000, per_cases=60):
+    """histories: returns (reports {(i, segment): (sched_ok, flags, counts, floats, diag)}, broken)."""
+    shards, groups = [], []
+    I, scheds, hcs, ids, size = F.Interner(), [], [], [], 0
+
+    def flush():
+        nonlocal I, scheds, hcs, ids, size
+        if ids:
+            shards.append(H.shard_text(scheds, hcs, I))
+            groups.append(ids)
+        I, scheds, hcs, ids, size = F.Interner(), [], [], [], 0
+
+    for i, (c, r) in enumerate(zip(cases, ress)):
+        if "error" in r or not r.get("hook"):
+            continue
+        for j, (seg, so) in enumerate(zip(c["segments"], r["segments"])):
+            nd = len(I.defs)
+            s, hc, diag = H.segment_coq(c, seg, so, I)
+            scheds.append(s)
+            hcs.append(hc)
+            ids.append((i, j, diag))
+            size += len(s) + len(hc) + sum(len(d) for d in I.defs[nd:])
+            if size > per_bytes or len(ids) >= per_cases:
+                flush()
+    flush()
+    outs = C.run_shards(ctx.prop, shards)
+    reports, broken = {}, []
+    for g, (rc, out) in zip(groups, outs):
+        vals = F.parse_evals(out) if rc == 0 else []
+        if rc != 0 or len(vals) != 2 or vals[0] is None or vals[1] is None or len(vals[1]) != len(g):
+            broken.append(out[-1500:])
+            continue
+        bad = set(vals[0])
+        for pos, ((i, j, diag), rep) in enumerate(zip(g, vals[1])):
+            reports[(i, j)] = (pos not in bad, rep[0], rep[1], rep[2], diag)
+    return reports, broken
+
+
+def hist_key(c):
+    return repr((c["kind"], c["axis"], [(s["X"], s["y"], s["stages"]) for s in c["segments"]]))
+
+
+def hslim(r):
+    out = {k: v for k, v in r.items() if k in ("error",)}
+    out["segments"] = [dict(sel=s.get("sel"), presented=s.get("presented"),
+                            stages=[dict(sel=t["sel"], nsel=t["nsel"], n_refresh=len(t["refresh"]))
+                                    for t in s["stages"]]) for s in r.get("segments", [])]
+    return out
+
+
+def run_histories(ctx, nhist):
+    """the history family; returns a coverage dict."""
+    cases, ress = [], []
+    for _ in range(nhist):
+        c = H.gen_hist(ctx.rng, ctx.quick)
+        cases.append(c)
+        ress.append(H.run_impl(c))
+    stats = collections.Counter()
+    hist = dict(kind_axis=collections.Counter(), fits_per_segment=collections.Counter(),
+                scale_exp=collections.Counter(), tolerance=collections.Counter(),
+                re_transitions=collections.Counter(), segments=collections.Counter())
+    reported = set()
+    for i, (c, r) in enumerate(zip(cases, ress)):
+        hist["kind_axis"]["%s/axis%d" % (c["kind"], c["axis"])] += 1
+        hist["segments"][str(len(c["segments"]))] += 1
+        for seg in c["segments"]:
+            hist["fits_per_segment"][str(len(seg["stages"]))] += 1
+            hist["scale_exp"][str(seg["scale_exp"])] += 1
+            for a, b in zip(seg["stages"], seg["stages"][1:]):
+                hist["re_transitions"]["%d->%d" % (a["re"], b["re"])] += 1
+                stats["param_changes_k_mixing_tol"] += (a["k"], a["mixing"], a["tol"]) != (b["k"], b["mixing"], b["tol"])
+                stats["warm_start_without_new_selection"] += a["nts"] == b["nts"]
+            for st in seg["stages"]:
+                hist["tolerance"]["%.0e" % st["tol"]] += 1
+        msg, info = H.oracle(c, r)
+        stats["oracle_steps"] += info["steps"]
+        stats["oracle_gap_skipped"] += info["gap_skipped"]
+        stats["oracle_tie_accepted"] += info["tie_accepted"]
+        stats["oracle_premise_skipped_segments"] += info["premise_skipped"]
+        if msg:
+            C.report_violation(ctx, "C07 fails on the implementation (history on one estimator object): " + msg,
+                               dict(case=c, observed=hslim(r)), found_input=True)
+            reported.add(i)
+        if not r.get("hook") and "error" not in r:
+            stats["no_compute_pi_hook"] += 1
+        # last sentence of the property, directly on the implementation: the twin history (sample CUR
+        # on X <-> feature CUR on X^T; PCov-CUR with mixing = 1 <-> CUR) selects the same items
+        twin, what = H.twin_case(c)
+        if twin is not None and i not in reported:
+            r2 = H.run_impl(twin)
+            tmsg, tinfo = H.compare_twin(c, r, twin, r2, what)
+            key = "twin_duality" if c["kind"] == "cur" else "twin_mixing_one"
+            stats[key + "_histories"] += 1
+            stats[key + "_segments_fully_compared"] += tinfo["segments"]
+            stats[key + "_refreshes_compared"] += tinfo["compared_refreshes"]
+            stats["twin_gap_or_tie_skipped"] += tinfo["gap_skipped"] + tinfo["tie_skipped"]
+            if tmsg:
+                C.report_violation(ctx, "C07 fails on the implementation: " + tmsg,
+                                   dict(case=c, twin=twin, observed=hslim(r), observed_twin=hslim(r2)),
+                                   found_input=True)
+                reported.add(i)
+    reports, broken = evaluate_hist(ctx, cases, ress)
+    maxima = [0.0] * len(HFLOATS)
+    totals = collections.Counter()
+    validated, nontrivial, seen = 0, 0, set()
+    for i, (c, r) in enumerate(zip(cases, ress)):
+        segs_ok = True
+        fired = 0
+        for j in range(len(c["segments"])):
+            if (i, j) not in reports:
+                segs_ok = False
+                continue
+            sched_ok, flags, counts, floats, diag = reports[(i, j)]
+            cd = dict(zip(HCOUNTS, counts))
+            # a branch decided by rounding (norm within 1e-9 of its threshold), or a pinv / lstsq cut
+            # next to a singular value: neither side is determined; counted, not compared
+            if cd["borderline_branch_decisions"] or diag["border"] or diag["trunc"]:
+                stats["segments_skipped_borderline_or_rcond"] += 1
+                segs_ok = False
+                continue
+            for name, v in zip(HCOUNTS, counts):
+                totals[name] += v
+            fired += cd["stale_items_reorthogonalised"]
+            if sched_ok and all(flags):
+                maxima = [max(a, b) if b == b else a for a, b in zip(maxima, floats)]
+                continue
+            segs_ok = False
+            if i in reported:
+                continue
+            broke = ([] if sched_ok else ["schedule / zeroing / arg-max over the history (exact)"]) + \
+                    [HFLAGS[q] for q, b in enumerate(flags) if not b]
+            C.report_violation(
+                ctx, "correspondence CUR history model vs implementation broken (segment %d): %s "
+                     "(oracle accepts the output)" % (j, "; ".join(broke)),
+                dict(case=c, observed=hslim(r), segment=j, correspondence=broke,
+                     counts=cd, deviations=dict(zip(HFLOATS, floats))), found_input=False)
+            reported.add(i)
+        if segs_ok:
+            validated += 1
+            key = hist_key(c)
+            # non-trivial: a history with >= 2 fits in which a stale item was re-orthogonalised at a
+            # warm start, or the data are not of unit scale, or the tolerance is not the default
+            if key not in seen and any(len(s["stages"]) >= 2 for s in c["segments"]) and (
+                    fired or any(s["scale_exp"] for s in c["segments"])
+                    or any(st["tol"] != 1e-12 for s in c["segments"] for st in s["stages"])):
+                nontrivial += 1
+            seen.add(key)
+    for txt in broken:
+        C.report_violation(ctx, "correspondence shard (histories) did not evaluate", dict(coq_output=txt),
+                           found_input=False)
+    dist = dict(stats)
+    dist.update({k: dict(v) for k, v in hist.items()})
+    dist.update(dict(totals))
+    dist["maxima"] = dict(zip(HFLOATS, maxima))
+    sample_ids = [i for i in range(len(cases)) if (i, 0) in reports][:1]
+    return dict(evaluations=len(cases), validated=validated, nontrivial=nontrivial, distribution=dist,
+                samples=[dict(case=cases[i], observed=hslim(ress[i])) for i in sample_ids])
+
+
 def run(ctx):
-    po = C.proof_obligations(ctx.prop, extra_targets=["Model/CURSched.vo", "Model/CURLoop.vo"])
+    po = C.proof_obligations(ctx.prop, extra_targets=["Model/CURSched.vo", "Model/CURLoop.vo", "Model/CURHistSched.vo", "Model/CURHist.vo"])
     ncases = 600 if ctx.quick else 6000
     cases, ress = [], []
     for _ in range(ncases):
@@ -172,6 +353,7 @@ def run(ctx):
         C.report_violation(ctx, "proof obligations of Properties/C07.v not discharged",
                            dict(theorem_file="coq/Properties/C07.v", log=po["log"][-2000:], scan=po["scan"],
                                 disallowed_axioms=po.get("disallowed_axioms")), found_input=False)
+    hcov = run_histories(ctx, 600 if ctx.quick else 4000)
     cur, changed = C.drift_report(ctx.prop, ANCHORS)
     dist = dict(stats)
     dist.update({k: dict(v) for k, v in hist.items()})
@@ -179,6 +361,10 @@ def run(ctx):
     dist["maxima"] = dict(zip(FLOATS, maxima))
     dist["tolerances"] = F.PARAMS
     dist["cases_not_evaluated"] = len(missing)
+    dist["histories"] = hcov["distribution"]
+    dist["histories"]["evaluations"] = hcov["evaluations"]
+    dist["histories"]["validated"] = hcov["validated"]
+    dist["histories"]["distinct_nontrivial"] = hcov["nontrivial"]
     sample_ids = [i for i in range(len(cases)) if i in reports][:2]
     cov = dict(obligations=po["obligations"], discharged=po["discharged"], checker_cmd=po["checker_cmd"],
                theorems=po["theorems"], axioms=po["axioms"],
@@ -190,13 +376,17 @@ def run(ctx):
                    "order-preserving IEEE bit pattern",
                    "binary64 evaluation of the mexp programs by Coq's primitive floats; np.divide(col, norm) "
                    "is modelled as col * (1/norm)"],
-               evaluations=len(cases), distinct_nontrivial=nontrivial,
+               evaluations=len(cases) + hcov["evaluations"], distinct_nontrivial=nontrivial + hcov["nontrivial"],
                rule="random integer / float matrices (rank > number of selections) x {CUR, PCov-CUR} x "
                     "{sample, feature} x k in 1..3 x recompute_every in 0..3 x mixing grid x optional warm "
                     "start; non-trivial = distinct fit with >= 2 selections whose importance vector was "
-                    "compared un-gated at >= 2 refreshes (so a non-trivial residual was scored)",
-               traces_validated_against_impl=validated,
-               samples=[dict(case=cases[i], observed=slim(ress[i])) for i in sample_ids],
+                    "compared un-gated at >= 2 refreshes (so a non-trivial residual was scored); plus histories "
+                    "on one estimator object (cold fit, set_params, warm starts, cold refits; X * 2^-e; "
+                    "non-default tolerances): non-trivial = distinct history with >= 2 fits that agrees with "
+                    "the model throughout and in which a stale item was re-orthogonalised at a warm start, or "
+                    "the scale is not 1, or the tolerance is not the default",
+               traces_validated_against_impl=validated + hcov["validated"],
+               samples=[dict(case=cases[i], observed=slim(ress[i])) for i in sample_ids] + hcov["samples"],
                distribution=dist, anchor_drift=changed)
     return C.finish(ctx, "proof", cov, [
         "spectral decompositions, pinv and lstsq are oracles (hypotheses: orthonormal eigenbasis, "
@@ -215,8 +405,36 @@ def slim(r):
     return out
 
 
+def replay_history(ctx, obj):
+    c = obj["case"]
+    r = H.run_impl(c)
+    msg, info = H.oracle(c, r)
+    print("selected:", [s.get("sel") for s in r.get("segments", [])], "error:", r.get("error"))
+    if msg is None and "twin" in obj:
+        twin, what = H.twin_case(c)
+        if twin is not None:
+            msg, _ = H.compare_twin(c, r, twin, H.run_impl(twin), what)
+    if msg is None and not obj.get("failing_input_found", True):
+        reports, broken = evaluate_hist(ctx, [c], [r])
+        bad = False
+        for (i, j), (sched_ok, flags, counts, floats, diag) in sorted(reports.items()):
+            print("segment %d: schedule model agrees: %s" % (j, sched_ok))
+            for name, b in zip(HFLAGS, flags):
+                print("  %-70s %s" % (name, b))
+            print("  counts:", dict(zip(HCOUNTS, counts)))
+            print("  deviations:", dict(zip(HFLOATS, floats)))
+            bad = bad or not (sched_ok and all(flags))
+        if bad:
+            print("replay: the history model and the implementation still disagree on this input")
+            return 1
+    print("replay:", msg if msg else "property holds on this input now")
+    return 1 if msg else 0
+
+
 def replay(ctx, obj):
     c = obj["case"]
+    if "segments" in c:
+        return replay_history(ctx, obj)
     r = F.run_impl(c)
     msg, info = F.oracle(c, r)
     print("selected:", r.get("sel"), "error:", r.get("error"))
